@@ -80,6 +80,23 @@ class Slotted(rp.SupportRemoteGetState):
         return (dict(self.__dict__), {'name': self.name, 's': self.s})
 
 
+class EmptyState(rp.SupportRemoteGetState):
+    """its state is the empty dict (falsy) - and its __setstate__ still has to run: it re-creates what the state does not carry"""
+    def __init__(self, name):
+        self.name = name
+        self.cache = {}
+
+    def __getstate__(self, remote=False):
+        LOG.append(('get', 'empty', remote))
+        return {}
+
+    def __setstate__(self, st):
+        LOG.append(('set', 'empty'))
+        self.__dict__.update(st)
+        self.name = 'restored'
+        self.cache = {}
+
+
 class Plain:
     def __init__(self, **a):
         self.__dict__.update(a)
@@ -100,6 +117,9 @@ def show(o, seen=None):
     if isinstance(o, (Opt, NoSet, Duck, Plain)):
         seen[id(o)] = getattr(o, 'name', 'plain')
         return f'{type(o).__name__}({", ".join(f"{k}={show(v, seen)}" for k, v in sorted(o.__dict__.items()))})'
+    if isinstance(o, EmptyState):
+        seen[id(o)] = 'empty'
+        return f'EmptyState({", ".join(f"{k}={show(v, seen)}" for k, v in sorted(o.__dict__.items()))})'
     if isinstance(o, Pair):
         seen[id(o)] = o.name
         return f'Pair({o.name!r}, items={show(o.items, seen)})'
@@ -125,6 +145,8 @@ def shapes():
     yield 'child with __setstate__ and a 2-tuple state', lambda: Opt('p', a=Pair('a', [1, 2]))
     yield 'top without __setstate__ and a (dict, slots) state', lambda: Slotted('p', 5, x=1)
     yield 'child without __setstate__ and a (dict, slots) state', lambda: Opt('p', a=Slotted('a', 5, x=1))
+    yield 'top with __setstate__ and an empty (falsy) state', lambda: EmptyState('e')
+    yield 'child with __setstate__ and an empty (falsy) state', lambda: Opt('p', a=EmptyState('e'))
     yield 'one child', lambda: Opt('p', a=Opt('a'))
     yield 'one child without __setstate__', lambda: Opt('p', a=NoSet('a'))
     yield 'two siblings', lambda: Opt('p', a=Opt('a'), b=Opt('b'))
@@ -216,6 +238,8 @@ def main():
              ('one child, root patch', lambda: Opt('p', x=1, a=Opt('a', y=1)), {'x': 2}, "Opt(a=Opt(name='a', y=1), name='p', x=2)"),
              ('one child, child patch', lambda: Opt('p', x=1, a=Opt('a', y=1)), {'a': {'y': 2}}, "Opt(a=Opt(name='a', y=2), name='p', x=1)"),
              ('one child, child replaced', lambda: Opt('p', x=1, a=Opt('a', y=1)), {'a': 'replaced'}, "Opt(a='replaced', name='p', x=1)"),
+             ('chain of three, root patch', lambda: Opt('p', x=1, a=Opt('a', x=1, b=Opt('b', x=1))), {'x': 2}, "Opt(a=Opt(b=Opt(name='b', x=1), name='a', x=1), name='p', x=2)"),
+             ('chain of three, patch for the middle one', lambda: Opt('p', x=1, a=Opt('a', x=1, b=Opt('b', x=1))), {'a': {'x': 2}}, "Opt(a=Opt(b=Opt(name='b', x=1), name='a', x=2), name='p', x=1)"),
              ('chain of three, nested patch', lambda: Opt('p', a=Opt('a', b=Opt('b', z=1))), {'a': {'b': {'z': 2}}}, "Opt(a=Opt(b=Opt(name='b', z=2), name='a'), name='p')"),
              ('duck-typed child (opts in by the signature of its __getstate__ only), root patch', lambda: Opt('p', x=1, a=Duck('a', x=1)), {'x': 2}, "Opt(a=Duck(name='a', x=1), name='p', x=2)"),
              ('duck-typed child, child patch', lambda: Opt('p', x=1, a=Duck('a', y=1)), {'a': {'y': 2}}, "Opt(a=Duck(name='a', y=2), name='p', x=1)"),
